@@ -101,6 +101,14 @@ def label_of(e):
     return strip_sites(strip_load(e))
 
 
+def descent_roles(F, c):
+    """(left, right, graph, map) parameter numbers of the descent, as established by mg3456"""
+    if getattr(c, "roles", None) is None:
+        from report import Report
+        mg3456(F, Report("roles"))
+    return getattr(c, "roles", None)
+
+
 def mg3456(F, R):
     c = mctx(F)
     if c.merge is None or c.rec is None:
@@ -120,6 +128,19 @@ def mg3456(F, R):
         R.bad("MG3", "MG3/Sodg::merge/descent-signature", rec.where(), "cannot establish MG3–MG6: unrecognised signature of the descent %s" % ps)
         return
     left, right, gp, mp = ("param", us[0]), ("param", us[1]), ("param", gi[0]), ("param", mi[0])
+    # which of the two ids is the *right* one is read off the code, not off the parameter order: it is the one the other
+    # graph is asked about (`g.kids(r)`, `g.vertices.get(r)`)
+    asked = set()
+    for e in raw:
+        if e.kind == "call" and e.args and len(e.args) > 1 and strip_load(e.args[0]) == gp and strip_load(e.args[1]) in (left, right):
+            asked.add(strip_load(e.args[1]))
+    if asked == {left}:
+        left, right = right, left
+    elif asked != {right}:
+        R.bad("MG3", "MG3/Sodg::merge/descent-signature", rec.where(), "cannot establish MG3–MG6: both or neither id parameter of the descent "
+              "is used on the right graph")
+        return
+    c.roles = (left[1], right[1], gp[1], mp[1])
 
     def is_kid_none(f, lbl=None):
         if f[0] == "in" and f[2] == frozenset(["None"]):
@@ -300,7 +321,10 @@ def mg78(F, R):
         return
     mapx = mapx[0]
     gp = ("param", 2)
-    if gp not in rargs or ("param", 3) not in rargs or ("param", 4) not in rargs:
+    roles = descent_roles(F, c)
+    started = roles is not None and len(rargs) >= max(roles) and rargs[roles[0] - 1] == ("param", 3) and rargs[roles[1] - 1] == ("param", 4) and \
+        rargs[roles[2] - 1] == gp
+    if not started:
         R.bad("MG7", "MG7/Sodg::merge/descent-start", m.where(rsite), "the descent is not started on (right graph, left, right) as given")
     oks, errs = [], []
     for d in m.defs().get(0, []):
